@@ -60,6 +60,9 @@ func (d *Data) NewArbSlice(topLeft, topRight, bottomLeft dvid.Vector3d, res floa
 	dy := bottomLeft.Distance(topLeft)
 	nxFloat := math.Floor(dx / res)
 	nyFloat := math.Floor(dy / res)
+	if !(nxFloat >= 0 && nxFloat < math.MaxInt32) || !(nyFloat >= 0 && nyFloat < math.MaxInt32) {
+		return nil, fmt.Errorf("bad arbitrary image size requested: %g x %g pixels", nxFloat+1, nyFloat+1)
+	}
 	incrX := topRight.Subtract(topLeft).DivideScalar(nxFloat)
 	incrY := bottomLeft.Subtract(topLeft).DivideScalar(nyFloat)
 	size := dvid.Point2d{int32(nxFloat) + 1, int32(nyFloat) + 1}
@@ -67,11 +70,11 @@ func (d *Data) NewArbSlice(topLeft, topRight, bottomLeft dvid.Vector3d, res floa
 	arb := &ArbSlice{topLeft, topRight, bottomLeft, res, size, incrX, incrY, bytesPerVoxel, nil}
 
 	// Allocate the image buffer
-	numVoxels := size[0] * size[1]
+	numVoxels := int64(size[0]) * int64(size[1])
 	if numVoxels <= 0 {
 		return nil, fmt.Errorf("Bad arbitrary image size requested: %s", arb)
 	}
-	requestSize := int64(bytesPerVoxel) * int64(numVoxels)
+	requestSize := int64(bytesPerVoxel) * numVoxels
 	if requestSize > server.MaxDataRequest {
 		return nil, fmt.Errorf("Requested payload (%d bytes) exceeds this DVID server's set limit (%d)",
 			requestSize, server.MaxDataRequest)
